@@ -284,7 +284,7 @@ def vocab(specs):
     from . import model, histgen
     from .protoxml import decode, enum_candidates
     P = histgen.protocols()
-    V = {k: set() for k in ('conn', 'type', 'id', 'idgen', 'name', 'argname', 'int', 'float', 'str', 'label', 'label2')}
+    V = {k: set() for k in ('conn', 'type', 'id', 'idgen', 'name', 'argname', 'int', 'float', 'str', 'label', 'label2', 'fd')}
     W = model.MWorld()
     winners = histgen.winners_map()
     for m in specs:
@@ -309,6 +309,7 @@ def vocab(specs):
                                 if k >= 1:
                                     V['label2'].add(l)      # non-first label of a multi-label value
             elif a[0] == 'fixed': V['float'].add(a[1] / 256.0)
+            elif a[0] == 'fd': V['fd'].add(a[1])
             elif a[0] == 'str' and a[1] is not None: V['str'].add(a[1])
             elif a[0] == 'obj' and a[2] is None and a[1]: V['type'].add(a[1])
             o = rec['args'][i]
@@ -390,6 +391,9 @@ class Gen:
         if k == 0:
             return ['int', d.choice(self.V.get('int', []) + [0, 1, 5] + self.V['id'])]
         if k == 1:
+            if d.chance(0.35) and (self.V.get('int') or self.V.get('fd')):
+                # a float spelling of an integer / fd that occurs: must select fixed-point arguments only
+                return ['float', float(d.choice(self.V.get('int', []) + self.V.get('fd', [])))]
             return ['float', d.choice(self.V.get('float', []) + [0.5, 7.0, 1.5])]
         if k == 2:
             ok = [x for x in self.V.get('str', []) if not set(x) & set('"()[]\t,!') and x == x.strip() and x]
